@@ -31,6 +31,7 @@ import ZygoVerif.Model.StackEffect
 import ZygoVerif.Model.LegacyBalance
 import ZygoVerif.Proofs.Balanced
 import ZygoVerif.Proofs.GenBalanced
+import ZygoVerif.Proofs.GenBalancedAll
 import ZygoVerif.Proofs.VMRest
 import ZygoVerif.Generated.InstrSet
 namespace ZygoVerif.C04
@@ -231,14 +232,8 @@ any number of arms, `let`, `letseq`, `newScope`, `fn`/`defn` (as the closure-cre
 they are in the enclosing code) and selector assignment, nested to any depth (`okAs`): the
 top-level code of the text is balanced, for every loop table.
 
-MISSING for `GenBalanced`:
-* `for` / `break` / `continue`: the combinators the induction needs are there and generic in
-  the loop context `Γ` (`FragOK Γ`, `efrag_branch_over`, `efrag_branch_skip`, `frag_seq`), the
-  cut-back rule is proved sound in `checker_sound`; what is not done is the loop layout lemma
-  for `asmFor` and the bookkeeping that ties `Γ` to the generator's loop table and loop stack.
-  Every loop the real generator emitted in this run was checked instance by instance (`bal`).
-* function bodies (second conjunct): the body of a template is compiled with the tail flag
-  on, which adds the self-tail-call path (`prepareCall; removeScope…; goto 0`); same status. -/
+SUPERSEDED by `gen_balanced` below (all forms, function bodies, self tail calls); kept because it
+quantifies over EVERY loop table and needs no hypothesis on the generator state. -/
 theorem gen_balanced_partial (isFn : Nat → Bool) (es : List Expr) (gs gs' : GS) (code : List Instr)
     (t : Bool) (T : List LoopRec) (hok : okAs es = true)
     (h : compileBegin isFn {} es gs = Except.ok ((code, t), gs')) :
@@ -250,7 +245,7 @@ theorem gen_balanced_partial (isFn : Nat → Bool) (es : List Expr) (gs gs' : GS
     exact ⟨[some restState], by simp only [B, List.map_nil]; decide⟩
   | cons e es =>
     obtain ⟨_, hadds⟩ := bal_compileBegin isFn (e :: es) {} gs code t gs' rfl hok (by simp) h
-    obtain ⟨mid, hfrag⟩ := hadds [] T restState (by decide)
+    obtain ⟨mid, hfrag⟩ := hadds {} T restState (by decide)
     exact ⟨_, verify_top_of_frag (B T code) mid hfrag⟩
 
 /-- The helper function the VM compiles for an operand (`EvalCallExpression`) or a lazy
@@ -262,7 +257,7 @@ theorem gen_balanced_operand (isFn : Nat → Bool) (e : Expr) (gs gs' : GS) (cod
     (h : compile isFn {} e gs = Except.ok ((code, t), gs')) :
     ∃ ann, verify { kind := .thunk, code := B T (code ++ [Instr.ret]) } ann = true := by
   obtain ⟨_, hadds⟩ := bal_compile isFn e {} gs code t gs' rfl hok h
-  obtain ⟨mid, hfrag⟩ := hadds [] T restState (by decide)
+  obtain ⟨mid, hfrag⟩ := hadds {} T restState (by decide)
   have := verify_thunk_of_frag (B T code) mid hfrag
   exact ⟨(restState :: mid ++ [bump restState 1]).map some ++ [none], by simpa [B, toB] using this⟩
 
@@ -290,6 +285,160 @@ example : ∃ code t gs', okAs [Expr.def_ "a" (.int 1),
                (.begin_ [.set_ "a" (.sym "y"), .arr [.sym "x", .sym "y"]])]] { fns := [] }
       = Except.ok ((code, t), gs') ∧ code.length = 29 :=
   ⟨_, _, _, by decide, rfl, by decide⟩
+
+/-! ## The generator emits balanced code: loops, function bodies, self tail calls -/
+
+/-- **The invariant of the induction** (`Bal.GInv d c gs Γ T σ`, Proofs/GenBalancedInv.lean) relates
+the generator's context at the point where a form is compiled to the abstract state `σ` of the
+checker at the point where the form's code starts:
+* `σ.k = c.scopes + d` — `gen.scopes` counts the scopes opened since the function's own
+  (`d` = 1 in a function body, 0 in a top-level text);
+* every loop `id` on the compile-time loop stack `gs.loopstack` is either a loop of the function
+  being compiled — then its stack-mark is open in `σ.frames`, the frames below it and `σ.base`
+  are those recorded when the loop was entered, `c.scopes ≥ scopeDepth id + 1`, and the state a
+  `break`/`continue` cuts back to (`k = scopeDepth id + 1 + d`, `junk` above the mark) is what the
+  annotation holds at `loopStart + breakOffset / continueOffset` — or a loop of an enclosing
+  function, whose `LoopStartInstr` does not occur in this function (`FindLoop` fails at run time);
+* every open stack-mark belongs to an existing loop record (so the next loop's id is fresh);
+* `c.tail` ⇒ the function's own area is empty (`σ.frames = []`, `σ.base = 0`) and the name the body
+  is compiled under resolves to a template with the signature of the function being checked.
+`gen_fragment`: under this invariant the code of ANY form of the covered grammar is a verified
+fragment from `σ` to `σ` + one value — wherever it is placed. -/
+theorem gen_fragment (isFn : Nat → Bool) (e : Expr) (c : Ctx) (gs gs' : GS) (code : List Instr) (t : Bool)
+    (T : List LoopRec) (hok : okL e = true) (hgs : GSok gs) (hT : TOk gs gs' T)
+    (h : compile isFn c e gs = Except.ok ((code, t), gs'))
+    (d : Nat) (Γ : Env) (σ : AState) (hinv : GInv d c gs Γ T σ) :
+    ExprFrag Γ (B T code) σ (bump σ 1) :=
+  ((balL_compile isFn e c gs code t gs' hok hgs h).2.2.sem T hT).2 d Γ σ hinv
+
+/-- **gen_balanced** — by ONE induction over the eight mutually recursive `compile*` functions,
+for every program of the covered grammar `okLs` = ALL core forms: literals, symbols, arrays,
+calls, begin, def, set, cond, and/or, let, letseq, newScope, selector assignment, **`for` (with or
+without label), `break`/`continue` (labelled or not) in every position the generator accepts
+(loop body, init, test, increment, cond tests and arms, and/or arms, let initialisers and bodies,
+array elements, operands of def/set; out of any number of nested `let`/`newScope` scopes; to an
+outer labelled loop; inside a `fn` that sits in a loop), `fn`/`defn` at any nesting depth**:
+1. the top-level code of the text is verified, and
+2. **every function template** the generator allocates while compiling the text — prologue
+   `addFuncScope` + formals (fixed or variadic), body compiled with the tail flag on, epilogue
+   `removeScope; ret`, **self tail calls** (`args; prepareCall; removeScope × (scopes+1); goto 0`,
+   re-entering at instruction 0 with the entry state) in every tail context — is a verified
+   function of kind `fn`.
+Hypotheses, compared with the full statement `GenBalanced`:
+* `okLs es`: bodies of `let`/`fn`/`defn` are not empty (the real builders refuse an empty function
+  body: compile error) and no call has the empty name or a generated name `__anon<n>` as its head
+  (inside the anonymous function of that very name such a call is compiled as a self tail call
+  with NO arity check, because `knownFunctions` has no entry: finding C09-02);
+* `GSok gs`: the ids on the compile-time loop stack at the start are ids of existing loop records
+  (true of every state the interpreter reaches; `GenBalanced` quantifies over arbitrary `gs`).
+What is proved is `∃ ann, verify f ann` — the hypothesis of `checker_sound`; that the work-list
+inference `infer` FINDS such an annotation (`check f = ok`) is not proved (it is run on every
+listing of every run, channel `bal`). -/
+theorem gen_balanced (isFn : Nat → Bool) (es : List Expr) (gs gs' : GS) (code : List Instr) (t : Bool)
+    (hok : okLs es = true) (hgs : GSok gs)
+    (h : compileBegin isFn {} es gs = Except.ok ((code, t), gs')) :
+    (∃ ann, verify { kind := .top, code := B gs'.loops code } ann = true)
+    ∧ ∀ i f, gs.fns.length ≤ i → gs'.fns[i]? = some f →
+        ∃ ann, verify { kind := .fn, nformals := f.params.length, varargs := f.varargs, nfixed := f.nargs,
+                        code := B gs'.loops f.code } ann = true :=
+  program_verified isFn es gs gs' code t gs'.loops hok hgs (TOk.self gs gs') h
+
+/-- **gen_balanced_loops**: the first half — texts with loops, `break`, `continue`. -/
+theorem gen_balanced_loops (isFn : Nat → Bool) (es : List Expr) (gs gs' : GS) (code : List Instr) (t : Bool)
+    (hok : okLs es = true) (hgs : GSok gs)
+    (h : compileBegin isFn {} es gs = Except.ok ((code, t), gs')) :
+    ∃ ann, verify { kind := .top, code := B gs'.loops code } ann = true :=
+  (gen_balanced isFn es gs gs' code t hok hgs h).1
+
+/-- **gen_balanced_functions**: the second half — every function template, as a whole function. -/
+theorem gen_balanced_functions (isFn : Nat → Bool) (es : List Expr) (gs gs' : GS) (code : List Instr) (t : Bool)
+    (hok : okLs es = true) (hgs : GSok gs)
+    (h : compileBegin isFn {} es gs = Except.ok ((code, t), gs'))
+    (i : Nat) (f : FnObj) (hi : gs.fns.length ≤ i) (hf : gs'.fns[i]? = some f) :
+    ∃ ann, verify { kind := .fn, nformals := f.params.length, varargs := f.varargs, nfixed := f.nargs,
+                    code := B gs'.loops f.code } ann = true :=
+  (gen_balanced isFn es gs gs' code t hok hgs h).2 i f hi hf
+
+/-- Generator and checker together: a function the generator made, called with its arguments on
+top of ANY caller stack, (1) returns with exactly one value on top of it and the caller's scope
+depth, and (2) every time it is back at instruction 0 — a self tail call — the stacks have the
+depths of the first entry: iteration n runs in the space of iteration 1. -/
+theorem generated_function_balanced (isFn : Nat → Bool) (es : List Expr) (gs gs' : GS) (code : List Instr) (t : Bool)
+    (hok : okLs es = true) (hgs : GSok gs)
+    (h : compileBegin isFn {} es gs = Except.ok ((code, t), gs'))
+    (i : Nat) (f : FnObj) (hi : gs.fns.length ≤ i) (hf : gs'.fns[i]? = some f)
+    (D : List Cell) (S A : Nat) (c : CState)
+    (hreach : Reach { kind := .fn, nformals := f.params.length, varargs := f.varargs, nfixed := f.nargs,
+                      code := B gs'.loops f.code } ⟨0, List.replicate f.params.length .val ++ D, S, A⟩ c) :
+    (AtRet { kind := .fn, nformals := f.params.length, varargs := f.varargs, nfixed := f.nargs,
+             code := B gs'.loops f.code } c → c.data = .val :: D ∧ c.sc = S) ∧
+    (c.pc = 0 → c.data = List.replicate f.params.length .val ++ D ∧ c.sc = S ∧ c.addr = A) := by
+  obtain ⟨ann, hv⟩ := gen_balanced_functions isFn es gs gs' code t hok hgs h i f hi hf
+  constructor
+  · intro hret
+    have := checker_sound _ ann hv D S A ⟨0, List.replicate f.params.length .val ++ D, S, A⟩ c rfl rfl rfl rfl hreach
+    exact ⟨(this.2.1 hret).1, (this.2.1 hret).2.1⟩
+  · intro hpc
+    exact tail_call_reenters_at_entry_depth _ ann hv D S A ⟨0, List.replicate f.params.length .val ++ D, S, A⟩ c
+      rfl rfl rfl rfl hreach hpc
+
+/-! ### Non-vacuity -/
+
+/-- `(for outer: [(def i 0) (< i 3) (set i (+ i 1))]
+       (for [(def j 0) (< j 3) (set j (+ j 1))]
+         (let [q j] (cond (== q 1) (break outer:) (continue)))))`:
+nested loops, a labelled `break` to the outer loop and a `continue` out of a `let`. -/
+def exLoopProg : List Expr :=
+  [.for_ (some "outer") (.def_ "i" (.int 0)) (.call (.sym "<") [.sym "i", .int 3]) (.set_ "i" (.call (.sym "+") [.sym "i", .int 1]))
+    [.for_ none (.def_ "j" (.int 0)) (.call (.sym "<") [.sym "j", .int 3]) (.set_ "j" (.call (.sym "+") [.sym "j", .int 1]))
+      [.let_ false [("q", .sym "j")]
+        [.cond [(.call (.sym "==") [.sym "q", .int 1], .break_ (some "outer"))] (.continue_ none)]]]]
+
+/-- `(defn f [n a] (cond (== n 0) a (let [m (- n 1)] (f m (+ a n)))))`: a self tail call out of a `let`. -/
+def exTailProg : List Expr :=
+  [.defn "f" ["n", "a"] none
+    [.cond [(.call (.sym "==") [.sym "n", .int 0], .sym "a")]
+      (.let_ false [("m", .call (.sym "-") [.sym "n", .int 1])] [.call (.sym "f") [.sym "m", .call (.sym "+") [.sym "a", .sym "n"]]])]]
+
+example : GSok { fns := [] } := by intro id hid; cases hid
+
+/-- what the generator makes of a text, judged by a Boolean predicate (evaluated by the kernel) -/
+def compiledSat (es : List Expr) (P : List Instr → GS → Bool) : Bool :=
+  match compileBegin (fun _ => false) {} es { fns := [] } with
+  | .ok ((code, _), gs') => P code gs'
+  | .error _ => false
+
+theorem exists_of_compiledSat {es : List Expr} {P : List Instr → GS → Bool} (h : compiledSat es P = true) :
+    ∃ code t gs', compileBegin (fun _ => false) {} es { fns := [] } = Except.ok ((code, t), gs') ∧ P code gs' = true := by
+  unfold compiledSat at h
+  cases hc : compileBegin (fun _ => false) {} es { fns := [] } with
+  | error e => rw [hc] at h; cases h
+  | ok r =>
+    obtain ⟨⟨code, t⟩, gs'⟩ := r
+    rw [hc] at h
+    exact ⟨code, t, gs', rfl, h⟩
+
+/-- the hypotheses of `gen_balanced` are satisfiable by a text with nested loops: it is in the
+grammar, the generator accepts it (57 instructions, two loop records; the `break outer:` pops two
+scopes — the `let` and the inner loop's — the `continue` one), … -/
+example : okLs exLoopProg = true ∧ ∃ code t gs',
+    compileBegin (fun _ => false) {} exLoopProg { fns := [] } = Except.ok ((code, t), gs') ∧
+    (code.length == 57 && gs'.loops.length == 2 &&
+     code.any (fun i => match i with | .brk 0 2 => true | _ => false) &&
+     code.any (fun i => match i with | .cont 1 1 => true | _ => false)) = true :=
+  ⟨by decide, exists_of_compiledSat (by decide +kernel)⟩
+
+/-- … and by a tail-recursive function: its template is compiled to 21 instructions that contain
+the guard (fix C09-02; it skips 7 instructions: itself, the two operands, `prepareCall`, two
+`removeScope`, `goto`), the tail sequence with TWO `removeScope` (the `let`'s scope and the
+function scope; two more close the `let` and the function on the other path) and `goto 0`. -/
+example : okLs exTailProg = true ∧ ∃ code t gs',
+    compileBegin (fun _ => false) {} exTailProg { fns := [] } = Except.ok ((code, t), gs') ∧
+    (gs'.fns.map (fun f => f.code.length) == [21] &&
+     gs'.fns.all (fun f => f.code.any (fun i => match i with | .goto 0 => true | _ => false)) &&
+     gs'.fns.all (fun f => f.code.any (fun i => match i with | .tailGuard "f" 7 => true | _ => false)) &&
+     gs'.fns.map (fun f => (f.code.filter (fun i => match i with | .removeScope => true | _ => false)).length) == [4]) = true :=
+  ⟨by decide, exists_of_compiledSat (by decide +kernel)⟩
 
 /-! ## The property on the VM model -/
 
